@@ -253,6 +253,7 @@ func c22RunReader(sc *c22Script, st *c22Stats) (viols []c22Viol) {
 	runeSize := -1      // size of the last ReadRune if it is still the last consuming operation
 	pendingUnread := "" // "<family of the op before>" while a nil UnreadByte has not been read back yet
 	pendingCount := 0   // how many bytes were put back by consecutive nil UnreadBytes and not yet verified
+	staleSeen := false  // a stale-byte defect was reported earlier in this script
 	kinds := map[string]bool{}
 	untracked := false // after an accepted misuse the stream position is undefined: only panics are watched
 
@@ -287,8 +288,15 @@ func c22RunReader(sc *c22Script, st *c22Stats) (viols []c22Viol) {
 			sig := "stream:" + op.Op + "-returned-wrong-bytes"
 			if pendingUnread != "" {
 				sig = "stream:unreadbyte-after-" + pendingUnread + "-restores-stale-byte"
+			} else if staleSeen {
+				// the position bookkeeping after a stale byte was swallowed (e.g. as part of an
+				// end-of-line) is best effort: keep this apart from a first-hand stream violation
+				sig = "stream:wrong-bytes-later-in-a-script-that-hit-the-stale-unreadbyte-defect"
 			}
 			report(sig, fmt.Sprintf("op %d %s: %s (stream position %d)", i, op.Op, what, pos), i)
+			if pendingUnread != "" {
+				staleSeen = true
+			}
 		}
 		expect := func(gotb []byte) bool {
 			if pos+len(gotb) > len(data) || !bytes.Equal(gotb, data[pos:pos+len(gotb)]) {
@@ -302,6 +310,7 @@ func c22RunReader(sc *c22Script, st *c22Stats) (viols []c22Viol) {
 					// UnreadByte restores them again): adopt its view in a private copy
 					data = append([]byte{}, data...)
 					copy(data[pos:], gotb[:k])
+					staleSeen = true
 					return true
 				}
 				end := min(len(data), pos+len(gotb))
@@ -414,6 +423,17 @@ func c22RunReader(sc *c22Script, st *c22Stats) (viols []c22Viol) {
 				default:
 					report("framing:readline-ended-without-eol-or-input-end", fmt.Sprintf("op %d ReadLine=%q,false,nil but the source had already delivered %q after it", i, c22Trunc(line), c22Trunc(data[end:min(end+4, src.off)])), i)
 					ok = false
+				}
+			}
+			if pendingUnread != "" && ok && err == nil && !isPrefix {
+				// a put-back stale byte may have been swallowed as part of the end-of-line:
+				// the results cannot tell; re-base on what the reader still holds
+				if truePos := src.off - b.Buffered(); truePos != pos+len(line)+consumedExtra && truePos >= pos+len(line) && truePos <= pos+len(line)+2 {
+					report("stream:unreadbyte-after-"+pendingUnread+"-restores-stale-byte",
+						fmt.Sprintf("op %d ReadLine=%q consumed %d bytes, the source has an end-of-line of %d bytes there (stream position %d): a byte put back by UnreadByte is not the last byte consumed", i, c22Trunc(line), truePos-pos, consumedExtra, pos), i)
+					consumedExtra = truePos - pos - len(line)
+					staleSeen = true
+					pendingCount = 0
 				}
 			}
 			if stdOK {
@@ -1003,8 +1023,7 @@ func c22Check(r *vkit.Run, sc *c22Script, shrink bool) {
 	for _, v := range viols {
 		w, what := sc, v.What
 		if shrink && !sigFirstFew("C22", v.Sig) {
-			r.Violation(v.Sig, what, nil) // counted only: vkit keeps the first two witnesses per signature
-			continue
+			continue // counted; reported by sigFlushLater after the first two (shrunk) witnesses
 		}
 		if shrink {
 			t := *sc
@@ -1084,8 +1103,10 @@ func c22(r *vkit.Run) {
 		}
 		c22Check(r, sc, true)
 	}) {
+		sigFlushLater(r, "C22")
 		return
 	}
+	sigFlushLater(r, "C22")
 	var missing []string
 	for _, name := range []string{"reader_scripts", "writer_scripts", "reader_ops_that_refilled_from_source", "reader_peeks",
 		"reader_unread_nil", "reader_unread_error", "reader_writeto_delegated_to_source", "writer_flushes", "writer_sink_errors",
